@@ -59,3 +59,18 @@ func init() {
 		Rules: []ruleFn{func(w *World, r *Report) { ruleR06_1(w, r, true) }, ruleR05_2, ruleR07_3, ruleR05_1, ruleR05_5},
 	})
 }
+
+func init() {
+	register(&propertySpec{
+		ID: "C08", NeedsServer: true,
+		Explanation: "decides that storage errors surface (none is dropped on the way to the response), that every failure leaves through the error pack, that the client turns every code the server can send into a returned error instead of a panic, that the reply/unlock discipline covers the panic path, and whether the push commit is atomic or idempotent (known finding F14: it is neither). NOT decided: recovery after a restart and convergence after retries.",
+		Assumptions: []string{"a panic in the handler goroutine is recovered by the deferred exit function"},
+		Rules:       []ruleFn{ruleR06_4, ruleR08_2, ruleR08_3, ruleR08_4, ruleR16_1, ruleR16_2, ruleR16_4, ruleR05_1, ruleR06_3},
+	})
+	register(&propertySpec{
+		ID: "C09",
+		Explanation: "decides the commit/rollback gating of transactions: a failing body marks the transaction failed, delivery and recording happen only on success, rollback is restore-then-replay with errors propagated, the announced length of a received unit is checked against the received batch before slicing and before applying. NOT decided: that restore-and-replay reproduces the earlier state (depends on C10 and the whole history); a body that panics.",
+		Assumptions: []string{"snapshot round trip is faithful (C10)"},
+		Rules:       []ruleFn{ruleR09_1, ruleR09_2, ruleR09_3, ruleR09_4, ruleR09_5, ruleR03_3, ruleR03_4},
+	})
+}
